@@ -614,6 +614,10 @@ def compare(ck, cases, impl_out, model_out, mode):
             for k in ("E", "SD", "K", "M"):
                 if f.get(k) != b.get(k):
                     disagree.append("%s differs (model[%s]): impl %s / model %s" % (k, mode, f.get(k, "")[:300], b.get(k, "")[:300]))
+            if b.get("LV") == "0" and not known_keys:
+                disagree.append("the lock file's entries are not a valid solution (hypothesis of relock_stable)")
+            if b.get("LV") == "1":
+                ck.count("lockfiles_validated_as_complete_solutions")
             if mf.get("lockok") == "1" and mf.get("lockreach") != f.get("A"):
                 disagree.append("a complete valid lock was not kept: model reach %s, impl %s" % (mf.get("lockreach"), f.get("A")))
             # the model's known class and the oracle's naming of it must coincide
